@@ -255,13 +255,13 @@ def read_back(r):
             if getattr(ux, "name", None) != "PERCENT" or getattr(uy, "name", None) != "PERCENT":
                 x = y = ("unit", getattr(ux, "name", ux))
         # identities of the mutable objects the caption holds (caption, nodes, layouts, style dicts): two reads share none
+        from .foldutil import mutable_ids
         ids = {id(c)}
         for holder in [c] + list(c.attrs["nodes"]):
             ids.add(id(holder))
             for k_ in ("style", "layout_info", "content"):
                 v_ = holder.attrs.get(k_)
-                if isinstance(v_, (dict, list)) or (isinstance(v_, Stub) and v_.cls is not None):
-                    ids.add(id(v_))
+                mutable_ids(v_, ids)
         out.append({"start": c.attrs.get("start"), "end": c.attrs.get("end"), "lines": [norm(l) for l in lines],
                     "italic": norm(ital, drop=True), "unbalanced": depth_bad or on, "x": x, "y": y, "ids": ids,
                     "_alive": c})        # (the caption is kept alive with its identities: a freed object's id() is reused)
